@@ -14,9 +14,10 @@ extracted from the live classes is `Generated.C03.classTable`, the table the the
 is `expectedClassTable`, and `GenProps/C03.lean` obliges the two to be equal.
 
 Python objects are cells of a store (`List Cell`, the index is the reference): a family object
-holds its class and matrix, a `TransformChain` holds *references* to its members (so that later
-in-place edits of a member are seen through the chain, exactly as in Python), anything else
-(thin-plate spline, piecewise affine, `WithDims`) is an opaque leaf.
+holds its dimension, class and matrix, a `TransformChain` holds *references* to its members (so
+that later in-place edits of a member are seen through the chain, exactly as in Python), a
+`WithDims` holds its index list (it changes the dimension of the points), thin-plate splines and
+piecewise affine transforms are opaque leaves.
 -/
 import MenpoModel.Core.C03Mat
 
@@ -201,27 +202,50 @@ def ladder (tbl : ClassTable) : Nat → Dir → HT d → HT d → Option (HT d)
 
 def ladderFuel : Nat := 2
 
-/-! ### the store -/
+/-! ### the store
 
-inductive Cell (d : Nat)
-  | fam (t : HT d)
+Python objects are cells of one store; the reference of an object is its index.  The store is
+*heterogeneous in dimension*: a family object carries its own dimension `d` (its `h_matrix` is
+`(d+1) × (d+1)`), a chain holds references, a plain `Transform` is either opaque (thin-plate spline,
+piecewise affine) or a `WithDims` slicer, which changes the dimension of the points it is given. -/
+
+/-- a `Transform` without native composition -/
+inductive Plain
+  /-- uninterpreted (thin-plate spline, piecewise affine): its map is a parameter `env k` -/
+  | opq (k : Nat)
+  /-- `WithDims(ds)` with an index list : `x[:, ds]` -/
+  | withDims (ds : List Nat)
+  /-- `WithDims(mask)` with a Boolean mask (`np.array([True, True, False])`): the columns where the
+  mask is true; numpy refuses a mask whose length is not the dimension -/
+  | withMask (bs : List Bool)
+deriving DecidableEq, Repr
+
+inductive Cell
+  | fam (d : Nat) (t : HT d)
   | chain (members : List Nat)
-  | leaf (k : Nat)
+  | leaf (p : Plain)
 
-abbrev Store (d : Nat) := List (Cell d)
+abbrev Store := List Cell
 
 inductive Stmt
   /-- `r = a.compose_before(b)` (`dir = before`) / `r = a.compose_after(b)` (`dir = after`) -/
   | compose (dir : Dir) (a b : Nat)
   /-- `a.compose_before_inplace(b)` / `a.compose_after_inplace(b)` -/
   | inplace (dir : Dir) (a b : Nat)
+  /-- `a.compose_after_from_vector_inplace(v)` -/
+  | fromVector (a : Nat) (v : List Rat)
 deriving DecidableEq, Repr
 
 inductive Err
   /-- `ValueError`: the operand is outside `composes_inplace_with` -/
   | rejected
-  /-- `AttributeError`: a plain `Transform` has no in-place composition -/
+  /-- `AttributeError`: a plain `Transform` has no in-place composition, a chain no vector form -/
   | noMethod
+  /-- `ValueError` of `np.dot` / `reshape` / a length test: matrices of different dimension, or a
+  parameter vector of the wrong length -/
+  | shape
+  /-- `NotImplementedError`: 3-D `Similarity`, 2-D `Rotation` have no vector form -/
+  | notImplemented
   | badRef
   | fuel
 deriving DecidableEq, Repr
@@ -238,62 +262,167 @@ def chainAdd (dir : Dir) (ms : List Nat) (b : Nat) : List Nat :=
   | .before => ms ++ [b]
   | .after => b :: ms
 
+/-- native composition of two family objects: `np.dot` refuses matrices of different size -/
+def nativeCompose (tbl : ClassTable) (dir : Dir) {d d' : Nat} (s : HT d) (t : HT d') :
+    Except Err Cell :=
+  if h : d' = d then
+    match ladder tbl ladderFuel dir s (h ▸ t) with
+    | some r => .ok (.fam d r)
+    | none => .error .fuel
+  else .error .shape
+
 /-- the non-in-place calls `a.compose_before(b)` / `a.compose_after(b)`: the cell of the result -/
-def composeCell (tbl : ClassTable) (st : Store d) (dir : Dir) (a b : Nat) : Except Err (Cell d) :=
+def composeCell (tbl : ClassTable) (st : Store) (dir : Dir) (a b : Nat) : Except Err Cell :=
   match st[a]?, st[b]? with
-  | some (.fam s), some cb =>
+  | some (.fam _ s), some cb =>
     match cb with
-    | .fam t =>
+    | .fam _ t =>
       if accepts tbl (composesWith tbl s.cls) t.cls then
         -- ComposableTransform.compose_before → Homogeneous._compose_before
-        match ladder tbl ladderFuel dir s t with
-        | some r => .ok (.fam r)
-        | none => .error .fuel
+        nativeCompose tbl dir s t
       else .ok (.chain (orderPair dir a b))
     -- not an instance of composes_with: Transform.compose_before → TransformChain([self, t])
     | _ => .ok (.chain (orderPair dir a b))
-  -- TransformChain composes with every Transform: copy (fresh list) then append / insert
+  -- TransformChain composes with every Transform: copy (fresh list) then append / insert;
+  -- a chain operand is *not* flattened: it becomes one member
   | some (.chain ms), some _ => .ok (.chain (chainAdd dir ms b))
   -- a plain Transform: TransformChain([self, t]) / TransformChain([t, self])
   | some (.leaf _), some _ => .ok (.chain (orderPair dir a b))
   | _, _ => .error .badRef
 
+/-- the matrix product of an accepted in-place call -/
+def nativeInplace (dir : Dir) {d d' : Nat} (s : HT d) (t : HT d') : Except Err Cell :=
+  if h : d' = d then .ok (.fam d ⟨s.cls, rawCompose dir s.M (h ▸ t).M⟩) else .error .shape
+
 /-- the in-place calls: the new content of cell `a` -/
-def inplaceCell (tbl : ClassTable) (st : Store d) (dir : Dir) (a b : Nat) : Except Err (Cell d) :=
+def inplaceCell (tbl : ClassTable) (st : Store) (dir : Dir) (a b : Nat) : Except Err Cell :=
   match st[a]?, st[b]? with
-  | some (.fam s), some cb =>
+  | some (.fam _ s), some cb =>
     match cb with
-    | .fam t =>
-      if accepts tbl (inplaceWith tbl s.cls) t.cls then
-        .ok (.fam ⟨s.cls, rawCompose dir s.M t.M⟩)
+    | .fam _ t =>
+      if accepts tbl (inplaceWith tbl s.cls) t.cls then nativeInplace dir s t
       else .error .rejected
     | _ => .error .rejected
   | some (.chain ms), some _ => .ok (.chain (chainAdd dir ms b))
   | some (.leaf _), some _ => .error .noMethod
   | _, _ => .error .badRef
 
+/-! ### `from_vector` of the family classes (the operand of `compose_after_from_vector_inplace`) -/
+
+/-- the non-alignment class an alignment class is a variant of -/
+def baseOf : HCls → HCls
+  | .AlignmentAffine => .Affine
+  | .AlignmentSimilarity => .Similarity
+  | .AlignmentRotation => .Rotation
+  | .AlignmentTranslation => .Translation
+  | .AlignmentUniformScale => .UniformScale
+  | c => c
+
+/-- `h_matrix[:-1, -1] = v` -/
+def setTrans (M : Mat (d + 1)) (v : Vec d) : Mat (d + 1) := ⟨fun i j =>
+  if hi : i.val < d then (if j.val < d then M i j else v ⟨i.val, hi⟩) else M i j⟩
+
+/-- `np.fill_diagonal(h_matrix, v); h_matrix[-1, -1] = 1` -/
+def setDiag (M : Mat (d + 1)) (v : Vec d) : Mat (d + 1) := ⟨fun i j =>
+  if i = j then (if hi : i.val < d then v ⟨i.val, hi⟩ else 1) else M i j⟩
+
+/-- `Affine._from_vector_inplace` : `eye + p.reshape((d, d+1), order='F')` on the first `d` rows -/
+def affineOfParams (d : Nat) (v : List Rat) : Mat (d + 1) :=
+  let a := v.toArray
+  ⟨fun i j => (if i = j then 1 else 0) + (if i.val < d then a.getD (j.val * d + i.val) 0 else 0)⟩
+
+/-- the rotation matrix `Rotation._from_vector_inplace` builds from a quaternion `(w, x, y, z)` of
+squared norm `n ≠ 0`: `p ← p·√(2/n)`, then products of two entries of `p` only — every entry is
+rational in the parameters -/
+def quatRot (w x y z : Rat) : Mat 3 :=
+  let n := w * w + x * x + y * y + z * z
+  let k := 2 / n
+  Mat.ofList 3
+    [1 - k * (y * y) - k * (z * z), k * (x * y) - k * (z * w), k * (x * z) + k * (y * w),
+     k * (x * y) + k * (z * w), 1 - k * (x * x) - k * (z * z), k * (y * z) - k * (x * w),
+     k * (x * z) - k * (y * w), k * (y * z) + k * (x * w), 1 - k * (x * x) - k * (y * y)]
+
+/-- `h_matrix[:-1, :-1] = R` -/
+def setLin (M : Mat (d + 1)) (R : Mat d) : Mat (d + 1) := ⟨fun i j =>
+  if hi : i.val < d then (if hj : j.val < d then R ⟨i.val, hi⟩ ⟨j.val, hj⟩ else M i j) else M i j⟩
+
+/-- The matrix of `self.from_vector(v)` for a receiver of (base) class `c` holding `M`:
+`copy()` followed by the class's `_from_vector_inplace`, for a vector of the documented length.
+A vector of another length is refused (`ValueError`) by `Homogeneous` (reshape), `Affine`,
+`Similarity`, `Rotation` and `UniformScale`; `Translation` assigns it to a column (numpy broadcasts
+a single value, refuses any other length), `NonUniformScale` hands it to `np.fill_diagonal`, which
+cycles a short vector, truncates a long one and ignores an empty one. -/
+def fromVec (c : HCls) {d : Nat} (M : Mat (d + 1)) (v : List Rat) : Except Err (Mat (d + 1)) :=
+  match baseOf c with
+  | .Homogeneous => if v.length = (d + 1) * (d + 1) then .ok (Mat.ofList (d + 1) v) else .error .shape
+  | .Affine =>
+    if (d = 2 ∨ d = 3) ∧ v.length = d * (d + 1) then .ok (affineOfParams d v) else .error .shape
+  | .Similarity =>
+    if v.length = 4 then
+      if d = 2 then
+        let a := v.getD 0 0; let b := v.getD 1 0
+        .ok (Mat.ofList (d + 1) [1 + a, -b, v.getD 2 0, b, 1 + a, v.getD 3 0, 0, 0, 1])
+      else .error .shape
+    else if v.length = 7 then .error .notImplemented
+    else .error .shape
+  | .Rotation =>
+    if h : d = 3 then
+      if v.length = 4 then
+        let w := v.getD 0 0; let x := v.getD 1 0; let y := v.getD 2 0; let z := v.getD 3 0
+        -- a (numerically) zero quaternion, `n < 4·eps` = 2⁻⁵⁰: `_from_vector_inplace` returns
+        -- early, the copy keeps the matrix
+        if w * w + x * x + y * y + z * z < 1 / 1125899906842624 then .ok M
+        else .ok (setLin M (h ▸ quatRot w x y z))
+      else .error .shape
+    else .error .notImplemented
+  | .Translation =>
+    if v.length = d then .ok (setTrans M (Vec.ofList d v))
+    else if v.length = 1 then .ok (setTrans M ⟨fun _ => v.getD 0 0⟩)
+    else .error .shape
+  | .UniformScale =>
+    if v.length = 1 then .ok (setDiag M ⟨fun _ => v.getD 0 0⟩) else .error .shape
+  | .NonUniformScale =>
+    if v.length = 0 then .ok (setDiag M ⟨fun i => M i.castSucc i.castSucc⟩)
+    else .ok (setDiag M ⟨fun i => v.getD (i.val % v.length) 0⟩)
+  | _ => .error .badRef
+
+/-- `a.compose_after_from_vector_inplace(v)` = `a.compose_after_inplace(a.from_vector(v))`:
+the operand is a fresh object of the receiver's own class, so the gate is asked about that class -/
+def fromVectorCell (tbl : ClassTable) (st : Store) (a : Nat) (v : List Rat) : Except Err Cell :=
+  match st[a]? with
+  | some (.fam d s) =>
+    match fromVec s.cls s.M v with
+    | .error e => .error e
+    | .ok Mv =>
+      if accepts tbl (inplaceWith tbl s.cls) s.cls then
+        .ok (.fam d ⟨s.cls, rawCompose .after s.M Mv⟩)
+      else .error .rejected
+  | some _ => .error .noMethod
+  | none => .error .badRef
+
 /-- one statement: the new store and the reference of the result (non-in-place calls) -/
-def step (tbl : ClassTable) (st : Store d) : Stmt → Except Err (Store d × Option Nat)
+def step (tbl : ClassTable) (st : Store) : Stmt → Except Err (Store × Option Nat)
   | .compose dir a b => (composeCell tbl st dir a b).map fun c => (st ++ [c], some st.length)
   | .inplace dir a b => (inplaceCell tbl st dir a b).map fun c => (st.set a c, none)
+  | .fromVector a v => (fromVectorCell tbl st a v).map fun c => (st.set a c, none)
 
 /-- a rejected / impossible statement raises and leaves the store as it was -/
-def stepKeep (tbl : ClassTable) (st : Store d) (s : Stmt) : Store d :=
+def stepKeep (tbl : ClassTable) (st : Store) (s : Stmt) : Store :=
   match step tbl st s with
   | .ok (st', _) => st'
   | .error _ => st
 
-def runStmts (tbl : ClassTable) (st : Store d) (ss : List Stmt) : Store d :=
+def runStmts (tbl : ClassTable) (st : Store) (ss : List Stmt) : Store :=
   ss.foldl (stepKeep tbl) st
 
 /-! ### what an object denotes -/
 
-inductive Leaf (d : Nat)
-  | fam (t : HT d)
-  | opq (k : Nat)
+inductive Leaf
+  | fam (d : Nat) (t : HT d)
+  | plain (p : Plain)
 
 /-- concatenate the leaves of the members, in order (`none` if one of them has none) -/
-def flatMembers (g : Nat → Option (List (Leaf d))) : List Nat → Option (List (Leaf d))
+def flatMembers (g : Nat → Option (List Leaf)) : List Nat → Option (List Leaf)
   | [] => some []
   | m :: ms =>
     match g m, flatMembers g ms with
@@ -301,28 +430,64 @@ def flatMembers (g : Nat → Option (List (Leaf d))) : List Nat → Option (List
     | _, _ => none
 
 /-- `TransformChain._apply` is `reduce` over the members: the leaves in application order.
-Fuel bounds the nesting depth (`none`: deeper than the fuel, or a dangling reference). -/
-def flat (st : Store d) : Nat → Nat → Option (List (Leaf d))
+Fuel bounds the nesting depth (`none`: deeper than the fuel — in particular a chain that contains
+itself, on which Python recurses until `RecursionError` — or a dangling reference). -/
+def flat (st : Store) : Nat → Nat → Option (List Leaf)
   | 0, _ => none
   | fuel + 1, r =>
     match st[r]? with
     | none => none
-    | some (.fam t) => some [.fam t]
-    | some (.leaf k) => some [.opq k]
+    | some (.fam d t) => some [.fam d t]
+    | some (.leaf p) => some [.plain p]
     | some (.chain ms) => flatMembers (flat st fuel) ms
 
-def applyLeaf (tbl : ClassTable) (env : Nat → Vec d → Option (Vec d)) : Leaf d → Vec d → Option (Vec d)
-  | .fam t, x => applyHT tbl t x
-  | .opq k, x => env k x
+/-- a point of any dimension: its coordinates -/
+abbrev Pt := List Rat
+
+/-- `x[:, ds]` for one point (`none`: an index is out of range, numpy raises `IndexError`) -/
+def pick : List Nat → Pt → Option Pt
+  | [], _ => some []
+  | i :: is, x =>
+    match x[i]?, pick is x with
+    | some v, some vs => some (v :: vs)
+    | _, _ => none
+
+/-- `x[:, mask]` for one point and a mask of the right length -/
+def maskPick : List Bool → Pt → Pt
+  | b :: bs, v :: vs => if b then v :: maskPick bs vs else maskPick bs vs
+  | _, _ => []
+
+/-- a family object applied to a point: `np.dot` raises unless the point has the object's dimension -/
+def applyFam (tbl : ClassTable) {d : Nat} (t : HT d) (x : Pt) : Option Pt :=
+  if x.length = d then (applyHT tbl t (Vec.ofList d x)).map Vec.toList else none
+
+def applyLeaf (tbl : ClassTable) (env : Nat → Pt → Option Pt) : Leaf → Pt → Option Pt
+  | .fam _ t, x => applyFam tbl t x
+  | .plain (.opq k), x => env k x
+  | .plain (.withDims ds), x => pick ds x
+  | .plain (.withMask bs), x => if bs.length = x.length then some (maskPick bs x) else none
 
 /-- apply the leaves one after the other -/
-def applyLeaves (tbl : ClassTable) (env : Nat → Vec d → Option (Vec d)) :
-    List (Leaf d) → Vec d → Option (Vec d)
+def applyLeaves (tbl : ClassTable) (env : Nat → Pt → Option Pt) : List Leaf → Pt → Option Pt
   | [], x => some x
   | l :: ls, x => (applyLeaf tbl env l x).bind (applyLeaves tbl env ls)
 
+/-! ### dimension typing: every object is a partial function on dimensions -/
+
+/-- dimension of the output of a leaf on an `n`-dimensional point (`none`: the application raises);
+`envDim k` is the declared typing of the opaque transform `k` -/
+def leafDim (envDim : Nat → Nat → Option Nat) : Leaf → Nat → Option Nat
+  | .fam d _, n => if n = d then some d else none
+  | .plain (.opq k), n => envDim k n
+  | .plain (.withDims ds), n => if ds.all (· < n) then some ds.length else none
+  | .plain (.withMask bs), n => if bs.length = n then some (bs.count true) else none
+
+def leavesDim (envDim : Nat → Nat → Option Nat) : List Leaf → Nat → Option Nat
+  | [], n => some n
+  | l :: ls, n => (leafDim envDim l n).bind (leavesDim envDim ls)
+
 /-- does flattening `r` (within the fuel) visit cell `a`? -/
-def reaches (st : Store d) : Nat → Nat → Nat → Bool
+def reaches (st : Store) : Nat → Nat → Nat → Bool
   | 0, _, _ => false
   | fuel + 1, r, a =>
     r == a ||
@@ -330,13 +495,108 @@ def reaches (st : Store d) : Nat → Nat → Nat → Bool
     | some (.chain ms) => ms.any (fun m => reaches st fuel m a)
     | _ => false
 
+/-! ### `Affine.decompose` -/
+
+/-- `s[0]` -/
+def Vec.head (s : Vec d) : Rat := if h : 0 < d then s ⟨0, h⟩ else 0
+
+/-- the `Scale` factory: `UniformScale(s[0], n)` when `np.allclose(s, s[0])` (the Boolean), a
+`NonUniformScale(s)` otherwise -/
+def scaleFactory (s : Vec d) (uniform : Bool) : HT d :=
+  if uniform then ⟨.UniformScale, mkAffine (scalarMat d s.head) (zeroVec d)⟩
+  else ⟨.NonUniformScale, mkAffine (diagMat s) (zeroVec d)⟩
+
 /-- `Affine.decompose()` given the factors numpy's SVD returned (`L = U · diag s · V`):
-`[Rotation(V), Scale(s), Rotation(U), Translation(t)]`.  `Scale` builds a `UniformScale` from
-`s[0]` when all factors are (numerically) equal and a `NonUniformScale` otherwise. -/
-def decomposeLeaves (U V : Mat d) (s : Vec d) (uniform : Bool) (t : Vec d) : List (Leaf d) :=
-  [.fam ⟨.Rotation, mkAffine V (zeroVec d)⟩,
-   .fam ⟨if uniform then .UniformScale else .NonUniformScale, mkAffine (diagMat s) (zeroVec d)⟩,
-   .fam ⟨.Rotation, mkAffine U (zeroVec d)⟩,
-   .fam ⟨.Translation, mkAffine (Mat.one d) t⟩]
+`[Rotation(V), Scale(s), Rotation(U), Translation(t)]`. -/
+def decomposeLeaves (U V : Mat d) (s : Vec d) (uniform : Bool) (t : Vec d) : List Leaf :=
+  [.fam d ⟨.Rotation, mkAffine V (zeroVec d)⟩,
+   .fam d (scaleFactory s uniform),
+   .fam d ⟨.Rotation, mkAffine U (zeroVec d)⟩,
+   .fam d ⟨.Translation, mkAffine (Mat.one d) t⟩]
+
+/-- `DiscreteAffine.decompose()` : `[self.copy()]` -/
+def decomposeDiscrete (t : HT d) : List Leaf := [.fam d t]
+
+/-! ### method resolution (regenerated from the live classes, `Generated/C03Classes.lean`) -/
+
+/-- the classes composition is exercised on -/
+inductive Kls
+  | fam (c : HCls) | TransformChain | WithDims | ThinPlateSplines | PiecewiseAffine
+deriving DecidableEq, Repr
+
+/-- classes that define (supply) one of the methods below somewhere in an MRO -/
+inductive Sup
+  | Copyable | Vectorizable | Transform | ComposableTransform | VComposable | Alignment
+  | HomogFamilyAlignment | DiscreteAffine
+  | Homogeneous | Affine | Similarity | Rotation | Translation | UniformScale | NonUniformScale
+  | AlignmentAffine | AlignmentSimilarity | AlignmentRotation | AlignmentTranslation
+  | AlignmentUniformScale
+  | TransformChain | WithDims | ThinPlateSplines | AbstractPWA | CachedPWA | PythonPWA
+deriving DecidableEq, Repr
+
+/-- the methods of the composition machinery, in the column order of the method table -/
+inductive Meth
+  | compose_before | compose_after | compose_before_inplace | compose_after_inplace
+  | _compose_before | _compose_after | _compose_before_inplace | _compose_after_inplace
+  | compose_after_from_vector_inplace | from_vector | _from_vector_inplace
+  | _apply | copy | decompose | as_non_alignment | _set_h_matrix
+deriving DecidableEq, Repr
+
+def Meth.all : List Meth :=
+  [.compose_before, .compose_after, .compose_before_inplace, .compose_after_inplace,
+   ._compose_before, ._compose_after, ._compose_before_inplace, ._compose_after_inplace,
+   .compose_after_from_vector_inplace, .from_vector, ._from_vector_inplace,
+   ._apply, .copy, .decompose, .as_non_alignment, ._set_h_matrix]
+
+/-- per class: for each method of `Meth.all`, the class whose `__dict__` supplies it (`none`: no
+class of the MRO defines it, the attribute lookup raises `AttributeError`) -/
+abbrev MethodTable := List (Kls × List (Option Sup))
+
+def supplier (mt : MethodTable) (k : Kls) (m : Meth) : Option Sup :=
+  match mt.find? (fun r => r.1 == k) with
+  | some r => (r.2.getD (Meth.all.idxOf m) none)
+  | none => none
+
+/-- row of a family class: the eight compose entry points and `compose_after_from_vector_inplace`,
+`from_vector` are inherited unchanged by all twelve classes (`ComposableTransform` supplies the
+public calls, `Homogeneous` the ladder, the matrix products and the vector entry point) -/
+def famRow (fromVecInplace apply copy decompose asNonAlignment setH : Option Sup) : List (Option Sup) :=
+  [some .ComposableTransform, some .ComposableTransform, some .ComposableTransform,
+   some .ComposableTransform, some .Homogeneous, some .Homogeneous, some .Homogeneous,
+   some .Homogeneous, some .Homogeneous, some .Homogeneous,
+   fromVecInplace, apply, copy, decompose, asNonAlignment, setH]
+
+/-- a plain `Transform`: only the chain-building `compose_before/after` of `Transform` -/
+def plainRow (apply : Sup) : List (Option Sup) :=
+  [some .Transform, some .Transform, none, none, none, none, none, none, none, none, none,
+   some apply, some .Copyable, none, none, none]
+
+open Sup in
+/-- The method resolution the model is a transcription of (obligation `methodTable_ok`):
+which function body runs for each entry point on each class. -/
+def expectedMethodTable : MethodTable := [
+  (.fam .Homogeneous, famRow (some Homogeneous) (some Homogeneous) (some Copyable) none none (some Homogeneous)),
+  (.fam .Affine, famRow (some Affine) (some Affine) (some Copyable) (some Affine) none (some Affine)),
+  (.fam .Similarity, famRow (some Similarity) (some Affine) (some Copyable) (some Affine) none (some Affine)),
+  (.fam .Rotation, famRow (some Rotation) (some Affine) (some Copyable) (some DiscreteAffine) none (some Affine)),
+  (.fam .Translation, famRow (some Translation) (some Affine) (some Copyable) (some DiscreteAffine) none (some Affine)),
+  (.fam .UniformScale, famRow (some UniformScale) (some Affine) (some Copyable) (some DiscreteAffine) none (some Affine)),
+  (.fam .NonUniformScale, famRow (some NonUniformScale) (some Affine) (some Copyable) (some DiscreteAffine) none (some Affine)),
+  (.fam .AlignmentAffine, famRow (some Affine) (some Affine) (some HomogFamilyAlignment) (some Affine)
+    (some AlignmentAffine) (some AlignmentAffine)),
+  (.fam .AlignmentSimilarity, famRow (some AlignmentSimilarity) (some Affine) (some HomogFamilyAlignment)
+    (some Affine) (some AlignmentSimilarity) (some Affine)),
+  (.fam .AlignmentRotation, famRow (some Rotation) (some Affine) (some HomogFamilyAlignment)
+    (some DiscreteAffine) (some AlignmentRotation) (some Affine)),
+  (.fam .AlignmentTranslation, famRow (some AlignmentTranslation) (some Affine) (some HomogFamilyAlignment)
+    (some DiscreteAffine) (some AlignmentTranslation) (some Affine)),
+  (.fam .AlignmentUniformScale, famRow (some AlignmentUniformScale) (some Affine) (some HomogFamilyAlignment)
+    (some DiscreteAffine) (some AlignmentUniformScale) (some Affine)),
+  (.TransformChain, [some ComposableTransform, some ComposableTransform, some ComposableTransform,
+    some ComposableTransform, some ComposableTransform, some ComposableTransform, some TransformChain,
+    some TransformChain, none, none, none, some TransformChain, some Copyable, none, none, none]),
+  (.WithDims, plainRow WithDims),
+  (.ThinPlateSplines, plainRow ThinPlateSplines),
+  (.PiecewiseAffine, plainRow AbstractPWA)]
 
 end MenpoModel.C03
